@@ -86,6 +86,8 @@ Definition go_set_index (s : bytes) (i : Z) (v : N) : option bytes :=
    allocates a new, sufficiently large underlying array; otherwise, append re-uses the underlying array"), i.e. what
    other slices of that array observe afterwards, is NOT modelled here: that is SliceModel / gen/AppendSites.v (C13). *)
 Definition go_append (a b : bytes) : bytes := a ++ b.
+(* []byte{e1, ..., en}: "a new slice value each time it is evaluated", of length n, holding the (uint8) values *)
+Definition go_bytes_lit (l : list N) : bytes := List.map n2b l.
 (* big.NewInt(k).SetUint64(n).Bytes(): "Bytes returns the absolute value of x as a big-endian byte slice" -- minimal
    length, empty for 0: N_to_be of Base/Bytes.v (be_to_N_to_be; the model's u64_bytes) *)
 Definition go_big_uint64_bytes (n : N) : bytes := N_to_be n.
